@@ -20,30 +20,24 @@ def propLin (ctx : Ctx) : Lin → List (Var × Ctx)
 def lbGE0 (i : VarInfo) : Bool := match i.lb with | some l => decide (0 ≤ l) | none => false
 def ubLE0 (i : VarInfo) : Bool := match i.ub with | some u => decide (u ≤ 0) | none => false
 
-/-- context for the two factors of one product, as coded (the sign of the coefficient is not looked at) -/
+/-- context for the two factors of one product, given the context of the product itself -/
 def quadTermCtx (B : Bnds) (ctx : Ctx) (v w : Var) : Ctx :=
   if lbGE0 (B v) && lbGE0 (B w) then ctx
   else if ubLE0 (B v) && ubLE0 (B w) then ctx.flip
   else .mix
 
-/-- `PropagateResult2QuadTerms` **as coded** -/
+/-- `PropagateResult2QuadTerms` (as of /repo 29be2a5): the sign of the coefficient is taken into account first
+(`ctx12 = coef >= 0 ? ctx : -ctx`), then the signs of the factors' bounds.
+History: before 29be2a5 the coefficient sign was ignored (`ctx12 = ctx`), which is unsound — e.g.
+`x ∈ [0,5]`, `v = abs(z) ∈ [0,3]`, body `-(x·v)` in positive context handed *pos* to `v`, so `v` could be
+under-estimated (`a v = 0 ≤ f v = 3`) although body value `0 ≰ -15`; found by this check (DESIGN A0) and repaired. -/
 def propQuad (B : Bnds) (ctx : Ctx) : Quad → List (Var × Ctx)
   | [] => []
   | (c, v, w) :: t =>
     if c = 0 then propQuad B ctx t
     else
-      let c12 := quadTermCtx B ctx v w
-      (if v = w then [(v, c12)] else [(v, c12), (w, c12)]) ++ propQuad B ctx t
-
-/-- the proposed repair (`repo_patches/C01-fix-quadterms-ctx.diff`): take the sign of the coefficient
-into account first -/
-def propQuadFixed (B : Bnds) (ctx : Ctx) : Quad → List (Var × Ctx)
-  | [] => []
-  | (c, v, w) :: t =>
-    if c = 0 then propQuadFixed B ctx t
-    else
       let c12 := quadTermCtx B (if 0 ≤ c then ctx else ctx.flip) v w
-      (if v = w then [(v, c12)] else [(v, c12), (w, c12)]) ++ propQuadFixed B ctx t
+      (if v = w then [(v, c12)] else [(v, c12), (w, c12)]) ++ propQuad B ctx t
 
 /-- `PropagateResult(LinearFunctionalConstraint&)` -/
 def propLFC (ctx : Ctx) (body : Lin) : List (Var × Ctx) := propLin ctx.plus body
